@@ -110,10 +110,13 @@ def compare_models(orig, loaded, is_safe):
             if not num_eq(orig.partial_fluxes[k][i], loaded.partial_fluxes[k][i]):
                 return "partial_fluxes[%d][%d]: %r vs %r" % (k, i, orig.partial_fluxes[k][i], loaded.partial_fluxes[k][i])
             comp = mix.first_component if i == 0 else mix.second_component
-            pa = orig.permeances[k][i].convert(U.Units.kg_m2_h_kPa, comp)
+            po = orig.permeances[k][i]
+            from fractions import Fraction as _F
+            f_ = _F(1) if po.units == U.Units.kg_m2_h_kPa else (_F(comp.molecular_weight) * 3600 * (_F(1) if po.units == "SI" else _F("3.35e-10")))
+            pa_value = float(_F(float(po.value)) * f_)
             pb = loaded.permeances[k][i]
-            if pb.units != U.Units.kg_m2_h_kPa or not num_eq(pa.value, pb.value):
-                return "permeances[%d][%d]: %r %s vs %r %s" % (k, i, pa.value, pa.units, pb.value, pb.units)
+            if pb.units != U.Units.kg_m2_h_kPa or not num_eq(pa_value, pb.value):
+                return "permeances[%d][%d]: %r kg/(m2 h kPa) (held as %r %s) vs %r %s" % (k, i, pa_value, po.value, po.units, pb.value, pb.units)
     for name in ("permeate_temperature", "permeate_pressure"):
         a = getattr(orig, name)
         b = getattr(loaded, name)
@@ -163,7 +166,8 @@ def judge_roundtrip(case):
     if case.get("perm_units"):
         # a process model may hold its permeances in any unit; load promises kg/(m2 h kPa)
         mixo = pm.mixture
-        pm.permeances = [(p[0].convert(case["perm_units"], mixo.first_component), p[1].convert(case["perm_units"], mixo.second_component)) for p in pm.permeances]
+        pm.permeances = [(U.exact_permeance(float(p[0].value), case["perm_units"], mixo.first_component.molecular_weight),
+                          U.exact_permeance(float(p[1].value), case["perm_units"], mixo.second_component.molecular_weight)) for p in pm.permeances]
     root = tempfile.mkdtemp(prefix="c17_", dir=SCRATCH)
     try:
         ClockStub.answer = 4242
@@ -215,7 +219,7 @@ def judge_curve(case):
             pair = []
             for ci, comp in ((0, mix.first_component), (1, mix.second_component)):
                 p = U.Permeance(value=case["scale"] * (1 + 0.37 * i) * (1.0 if ci == 0 else 3.3e-3), units=U.Units.kg_m2_h_kPa)
-                pair.append(p if case["unit"] == U.Units.kg_m2_h_kPa else p.convert(case["unit"], comp))
+                pair.append(U.exact_permeance(float(p.value), case["unit"], comp.molecular_weight))
             perms.append(tuple(pair))
         st, curve = core.call(U.DiffusionCurve, mixture=mix, membrane_name="M x", feed_temperature=t, feed_compositions=comps, permeances=perms,
                               comments=case.get("comment"))
